@@ -409,10 +409,14 @@ def unit_seconds(flag, v):
 
 
 def regular(tr, i0, i1):
-    """between steps i0 and i1 time advanced by unit ticks, each followed by both sweeps before the next tick"""
+    """between steps i0 and i1 time advanced by unit ticks, each followed by both sweeps before the next tick
+    (sweeps that run to completion: a sweep started as a thread may be parked for any time between its collection and
+    its per-lock calls, so the upper bounds, which presuppose a prompt sweeper, are not claimed for such a stretch)"""
     pending = None
     for st in tr.steps[i0:i1 + 1]:
         f = st["line"].split()
+        if f[0] in ("startsweept", "startsweepe"):
+            return False
         if f[0] == "adv":
             if f[1] != "1" or (pending is not None and pending):
                 return False
@@ -451,6 +455,36 @@ def mon_c05(tr, upper=True):
     return out
 
 
+def restarted_after_collection(tr, i, g):
+    """the EXPRIED notice of step i was produced by a sweep THREAD (startsweepe, parked at yield point 15 between its
+    collection pass and its per-lock doExpried calls), and the hold's terms were set again (update / re-lock: the hold's
+    deadline or command changed, or the request the notice names was itself answered) after that thread had started:
+    doExpried does not look at the deadline again"""
+    j = None
+    x = i - 1
+    while x >= 0 and tr.steps[x]["after"] and tr.steps[x]["after"].get("thr", 0) > 0:
+        if tr.steps[x]["line"] == "startsweepe":
+            j = x
+        x -= 1
+    if j is None:
+        return False
+
+    def hold(snap):
+        k = snap["keys"].get(g["key"]) if snap else None
+        for h in (live_holders(k) if k else []):
+            if h["lockid"] == g["lockid"]:
+                return (h["eT"], h["req"])
+        return None
+    for x in range(j + 1, i + 1):
+        st = tr.steps[x]
+        a, b = hold(st["before"]), hold(st["after"])
+        if a and b and a != b:
+            return True
+        if any(rp["req"] == g["req"] and rp["result"] != R["EXPRIED"] for rp in st["replies"]):
+            return True
+    return False
+
+
 def mon_c06(tr, upper=True):
     """EXPRIED under request X at time t: never before (grant / re-lock / update time of X) + E; under unit ticks no later
     than E+2 s, or E+10 s when X changed the terms of an existing hold (the wheel entry is not moved)."""
@@ -480,7 +514,10 @@ def mon_c06(tr, upper=True):
                     continue
                 E = unit_seconds(g["eflag"], g["expried"])
                 if t - t0 < E:
-                    out.append(("expiry:early", "hold of request %d (expiry %ds) ended after %ds" % (rp["req"], E, t - t0), i))
+                    sig = "expiry:early"
+                    if restarted_after_collection(tr, i, g):
+                        sig += ":terms-restarted-after-the-sweeper-collected-the-hold"
+                    out.append((sig, "hold of request %d (expiry %ds) ended after %ds" % (rp["req"], E, t - t0), i))
                 bound = E + (10 if changed else 2)
                 if upper and t - t0 > bound and regular(tr, i0, i):
                     out.append(("expiry:late", "hold of request %d (expiry %ds%s) ended after %ds" % (rp["req"], E, ", set by re-lock/update" if changed else "", t - t0), i))
@@ -564,6 +601,13 @@ def mon_c17(tr, drained=True):
             out.append(("counts:WaitCount", "STATE WaitCount=%d but %d live queued requests" % (s["W"], waiters), i))
         if s["K"] != len(s["keys"]):
             out.append(("counts:KeyCount", "STATE KeyCount=%d but %d live keys" % (s["K"], len(s["keys"])), i))
+        # "everything is reclaimed": at a quiescent moment (no request or sweep parked between two of its critical
+        # sections) a key is in the table only as long as some lock record refers to it
+        if s.get("thr", 0) == 0:
+            for k in s["keys"].values():
+                if k["ref"] == 0 and (not st["before"] or st["before"].get("thr", 0) > 0 or k["key"] not in st["before"]["keys"] or st["before"]["keys"][k["key"]]["ref"] != 0):
+                    out.append(("counts:key-kept-without-any-record", "key %d stays in the key table after '%s' although no lock record refers to it (locked=%d, no holder, no queued request): it is not reclaimed until the next request names it"
+                                % (k["key"], st["line"], k["locked"]), i))
         # "the keys' values are gone": a request on a key that did not exist before the step is shown no value
         rq0 = st["req"]
         if rq0 and st["before"] and rq0["key"] not in st["before"]["keys"]:
